@@ -157,6 +157,14 @@ def sliced {F : Nat} (fam : Family Θ Y α) : Family (Tab F Θ) (Fin F × Y) α 
   aux θ y := fam.aux (rd θ y.1) y.2
   mstep N w a y := tab fun f => fam.mstep N (fun n => if (y n).1 = f then w n else 0) a (fun n => (y n).2)
 
+/-- two independent observation streams with unit stream weights (`GCACGMM` with `spatial_weight = spectral_weight
+= 1`): the log-densities add, each stream's component is fitted on its own observations with the same posterior
+weights; the auxiliary quantity is the first stream's (the cACG quadratic form) -/
+def prodFamily {Θ₂ Y₂ : Type} (fam₁ : Family Θ Y α) (fam₂ : Family Θ₂ Y₂ α) : Family (Θ × Θ₂) (Y × Y₂) α where
+  logPdf θ y := fam₁.logPdf θ.1 y.1 + fam₂.logPdf θ.2 y.2
+  aux θ y := fam₁.aux θ.1 y.1
+  mstep N w a y := (fam₁.mstep N w a (fun n => (y n).1), fam₂.mstep N w (fun _ => 1) (fun n => (y n).2))
+
 end generic
 
 /-! ## Gaussian components (`gaussian.py`) -/
